@@ -599,10 +599,12 @@ fn targeted(inner: &mut serde_json::Value, rng: &mut Rng) -> Option<&'static str
             let ni = rng.usize_below(ns.len());
             let which = if rng.chance(1, 2) { "node_dependencies" } else { "graph_dependencies" };
             let deps = ns[ni].get_mut(which)?.as_array_mut()?;
+            // a dangling reference: the node itself, a later node, or far out of range
+            let limit = if which == "node_dependencies" { ni as u64 } else { gi as u64 };
             let v = match rng.below(3) {
-                0 => ni as u64,
-                1 => ni as u64 + 1,
-                _ => big,
+                0 => limit,
+                1 => limit + 1,
+                _ => big.max(limit + 2),
             };
             if deps.is_empty() {
                 deps.push(serde_json::json!(v));
@@ -796,6 +798,22 @@ pub fn store_case(args: &Args, idx: usize, faults_per_case: usize, exhaustive_li
         }
         out.reads += 1;
         *out.counts.entry(format!("fault:{}", tag)).or_insert(0) += 1;
+        // faults whose result must be rejected (wrong version, broken payload, out-of-range ids, dangling dependencies)
+        let must_reject = tag.starts_with("structured:wrong-version") || tag.starts_with("structured:bad-payload") || tag.starts_with("structured:inner-truncated") || tag.starts_with("structured:targeted:");
+        if must_reject {
+            let text = String::from_utf8_lossy(&corrupted).to_string();
+            if !has_oversized_custom_parameter(&text) {
+                if let Ok(Ok(_)) = guarded(|| serde_json::from_str::<Context>(&text)) {
+                    let d = format!("a text with {} was accepted by the deserializer", tag.trim_start_matches("structured:"));
+                    if std::env::var("VERIF_COLLECT").is_ok() {
+                        *out.counts.entry(format!("COLLECT:accepted-invalid-text:{}", d)).or_insert(0) += 1;
+                    } else {
+                        out.violation = Some(mk("accepted-invalid-text", d, &s1, Some(f)));
+                        return true;
+                    }
+                }
+            }
+        }
         if let Some((class, detail)) = read_and_check(&corrupted, &mut out.counts) {
             if std::env::var("VERIF_COLLECT").is_ok() {
                 let key: String = detail.chars().take(160).collect();
